@@ -10,7 +10,10 @@ def clash_case(rng):
     resolve uniquely, others are ambiguous, missing or of the wrong kind"""
     saved = (G.ITF_NAMES, G.EXT_NAMES, G.ENUM_NAMES, G.NS_POOL)
     G.ITF_NAMES, G.EXT_NAMES, G.ENUM_NAMES = ['I', 'T'], ['T', 'I', 'X'], ['E', 'T']
-    G.NS_POOL = [[], ['A'], ['A', 'B'], ['B'], ['A', 'B', 'A']]
+    G.NS_POOL = rng.choice([[[], ['A'], ['A', 'B'], ['B'], ['A', 'B', 'A']],
+                            [[], ['A'], ['AB'], ['A', 'B'], ['A', 'BA'], ['A_', 'B']]])
+    if rng.random() < 0.5:
+        G.ITF_NAMES, G.EXT_NAMES = ['I', 'IH', 'T'], ['T', 'TT', 'I']
     try:
         c = G.gen_case(rng, want_mc=rng.random() < 0.2)
     finally:
@@ -27,7 +30,7 @@ def clash_case(rng):
             p['type'] = respell(ip['_itf'])
     # extra same-named declarations in unrelated and in enclosing namespaces
     for _ in range(rng.randint(0, 3)):
-        ns = rng.choice([[], ['A'], ['B'], ['A', 'B'], ['C']])
+        ns = rng.choice([[], ['A'], ['B'], ['A', 'B'], ['C'], ['AB'], ['A', 'BA'], ['A', 'I'], ['I']])
         kind = rng.choice(['interface', 'extern', 'enum'])
         name = rng.choice(['I', 'T', 'E', 'X'])
         if kind == 'interface':
